@@ -122,7 +122,11 @@ func debugRun(dir, pat string, rest []string) int {
 	os.MkdirAll(workdir, 0o755)
 	fail := 0
 	tExec := time.Since(t0)
-	e.discharge(workdir, 10)
+	dto := 10
+	if v := os.Getenv("GOVC_TIMEOUT"); v != "" {
+		fmt.Sscanf(v, "%d", &dto)
+	}
+	e.discharge(workdir, dto)
 	fmt.Printf("exec %.1fs (inc solver: %d calls %.1fs), solve %.1fs\n", tExec.Seconds(), incCalls(e), incSecs(e), (time.Since(t0) - tExec).Seconds())
 	for _, o := range e.obligations {
 		st := o.Result.Status
